@@ -18,7 +18,7 @@ RULE = ("seeded nested queries (derived tables, multiply referenced CTEs, set op
         "distinct = distinct (query text, output column)")
 ASSUMPTIONS = ["columns used only in WHERE / ON / GROUP BY / HAVING do not count as flowing into an output column"]
 SPEC = {
-    "quick": {"shards": 16, "time_cap": 150, "queries": 5000},
+    "quick": {"shards": 16, "time_cap": 400, "queries": 5000},
     "thorough": {"shards": 16, "time_cap": 1500, "queries": 25000},
 }
 FEATS = dict(window=True, any_sub=False, setops_all=False, stars="base-only", cte_cols=True, unqualified=0.4, star_dup_order=False,
